@@ -76,6 +76,9 @@ type c47Chain struct {
 	subscribed bool
 	calls      []c47Call
 	clock      *int
+	// emitOnCheck: another member's result lands on the chain right after this member's
+	// IsGroupRegistered query was answered "no" (the narrowest window there is)
+	emitOnCheck func()
 }
 
 func (c *c47Chain) GetConfig() *beaconchain.Config { return c.cfg }
@@ -83,7 +86,15 @@ func (c *c47Chain) OnDKGResultSubmitted(h func(*event.DKGResultSubmission)) subs
 	c.handler, c.subscribed = h, true
 	return subscription.NewEventSubscription(func() { c.subscribed = false })
 }
-func (c *c47Chain) IsGroupRegistered([]byte) (bool, error) { return c.registered, c.regErr }
+func (c *c47Chain) IsGroupRegistered([]byte) (bool, error) {
+	ans, err := c.registered, c.regErr
+	if c.emitOnCheck != nil && !ans && err == nil {
+		c.registered = true
+		c.emitOnCheck()
+		c.emitOnCheck = nil
+	}
+	return ans, err
+}
 func (c *c47Chain) SubmitDKGResult(beaconchain.GroupMemberIndex, *beaconchain.DKGResult, map[beaconchain.GroupMemberIndex][]byte) error {
 	*c.clock++
 	c.calls = append(c.calls, c47Call{c.blocks.height, *c.clock})
@@ -142,7 +153,7 @@ type c47LoopCase struct {
 	N          int    `json:"n"`
 	Member     int    `json:"member"`
 	Registered string `json:"registered"` // "no" | "yes" | "error": answer to IsGroupRegistered
-	Event      string `json:"event"`      // "none" | "submitted"
+	Event      string `json:"event"`      // "none" | "submitted" | "submitted-at-check"
 	EventRel   int    `json:"event_rel"`  // block of the competing submission relative to the slot
 }
 
@@ -175,6 +186,20 @@ func c47LoopBody(c c47LoopCase, obs *c47LoopObs) func() {
 			ch.regErr = fmt.Errorf("unavailable")
 		}
 		end := start + uint64(c.N)*step + 2
+		if c.Event == "submitted-at-check" {
+			ch.emitOnCheck = func() {
+				h := blocks.height
+				obs.emittedAt = h
+				if ch.subscribed {
+					handler := ch.handler
+					vsched.GoDaemon("submitted-event", func() {
+						handler(&event.DKGResultSubmission{BlockNumber: h})
+						obs.clock++
+						obs.observedStep = obs.clock
+					})
+				}
+			}
+		}
 		vsched.GoLow("chain", func() {
 			for blocks.height < end {
 				if len(blocks.requested) > 0 && c.Event == "submitted" && obs.emittedAt == 0 &&
@@ -302,7 +327,7 @@ func TestVerifC47BeaconDKG(t *testing.T) {
 				for _, ev := range []struct {
 					kind string
 					rel  int
-				}{{"none", 0}, {"submitted", -1}, {"submitted", 0}, {"submitted", 1}} {
+				}{{"none", 0}, {"submitted", -1}, {"submitted", 0}, {"submitted", 1}, {"submitted-at-check", 0}} {
 					if reg != "no" && ev.kind != "none" {
 						continue
 					}
